@@ -213,6 +213,7 @@ CHECKS = {
 NOT_YET = {}
 
 EXTENSIONS = {
+    "X08": "spec/ServeSignals.tla - the relic serve process under signals (USR1 ignored, first terminating signal drains and exits 0, a further one exits at once), scenario logs of the real process with driver-paced in-flight requests trace-validated",
     "X07": "spec/VerifyTrust.tla - whom relic verify trusts (anchors, bundled intermediates, validity at the attested time of the signature's own timestamp, the time-stamping authority's chain, --no-trust-chain): reference predicate vs pipeline, replayed as real PKIs and CMS signatures through the verifier's library path and the real relic verify command",
     "X06": "spec/CertIssue.tla - what relic puts into the X.509 objects it issues (x509-request, x509-self-sign, x509-sign with --copy-extensions / --cross-sign): the decision table over flags x submitted content x issuer, replayed on the real lib/x509tools functions with the issued object parsed and projected",
     "X05": "spec/CloudKey.tla - a key held by a cloud key-management service (token/awstoken: algorithm selection, remote GetPublicKey / Sign on digests, service-side validation, SDK retries), replayed on the real token and AWS SDK in front of a KMS stand-in",
